@@ -22,39 +22,192 @@ type Prog struct {
 	// Timed programs move time themselves (Sleep): they run natively with real (millisecond)
 	// durations and under the shims with the discrete-event rule.
 	Timed bool
+	// Racy programs contain a data race on purpose: the race build must REPORT it in some schedule
+	// (the shims create no happens-before edge the real primitives do not create).
+	Racy bool
 }
 
 const ms = time.Millisecond
 
 var All = []Prog{
-	{"mutex-counter", mutexCounter, false},
-	{"rwmutex-exclusion", rwExclusion, false},
-	{"rwmutex-writer-vs-second-reader", rwWriterVsReader, false},
-	{"cond-signal-broadcast", condProg, false},
-	{"waitgroup", wgProg, false},
-	{"once", onceProg, false},
-	{"chan-unbuffered-pingpong", pingPong, false},
-	{"chan-buffered-two-senders", bufferedSenders, false},
-	{"chan-close-range", closeRange, false},
-	{"chan-select-two-ready", selectTwoReady, false},
-	{"chan-select-default", selectDefault, false},
-	{"chan-send-on-closed-panics", sendOnClosed, false},
-	{"select-send-vs-plain-receive", selectSendVsRecv, false},
-	{"select-vs-select-rendezvous", selectVsSelect, false},
-	{"select-default-vs-parked-select", selectDefaultVsParked, false},
-	{"select-recv-vs-close", selectRecvVsClose, false},
-	{"chan-recv-from-closed", recvClosed, false},
-	{"timer-afterfunc-stop-early", func() string { return afterFuncStop(2) }, true},
-	{"timer-afterfunc-stop-late", func() string { return afterFuncStop(80) }, true},
-	{"timer-after-select-timeout", afterTimeout, true},
-	{"ticker-drops-ticks-when-full", tickerDrop, true},
-	{"timer-stop-then-no-fire", timerStopNoFire, true},
-	{"context-cancel-stops-worker", ctxCancel, false},
-	{"context-cancel-propagates-to-children", ctxChildren, false},
-	{"context-timeout", ctxTimeout, true},
-	{"context-cancel-vs-timeout", ctxCancelVsTimeout, true},
-	{"once-value", onceValue, false},
-	{"atomic-typed-counter", atomicTyped, false},
+	{"mutex-counter", mutexCounter, false, false},
+	{"rwmutex-exclusion", rwExclusion, false, false},
+	{"rwmutex-writer-vs-second-reader", rwWriterVsReader, false, false},
+	{"cond-signal-broadcast", condProg, false, false},
+	{"waitgroup", wgProg, false, false},
+	{"once", onceProg, false, false},
+	{"chan-unbuffered-pingpong", pingPong, false, false},
+	{"chan-buffered-two-senders", bufferedSenders, false, false},
+	{"chan-close-range", closeRange, false, false},
+	{"chan-select-two-ready", selectTwoReady, false, false},
+	{"chan-select-default", selectDefault, false, false},
+	{"chan-send-on-closed-panics", sendOnClosed, false, false},
+	{"select-send-vs-plain-receive", selectSendVsRecv, false, false},
+	{"select-vs-select-rendezvous", selectVsSelect, false, false},
+	{"select-default-vs-parked-select", selectDefaultVsParked, false, false},
+	{"select-recv-vs-close", selectRecvVsClose, false, false},
+	{"chan-recv-from-closed", recvClosed, false, false},
+	{"timer-afterfunc-stop-early", func() string { return afterFuncStop(2) }, true, false},
+	{"timer-afterfunc-stop-late", func() string { return afterFuncStop(80) }, true, false},
+	{"timer-after-select-timeout", afterTimeout, true, false},
+	{"ticker-drops-ticks-when-full", tickerDrop, true, false},
+	{"timer-stop-then-no-fire", timerStopNoFire, true, false},
+	{"chan-as-mutex", chanMutex, false, false},
+	{"chan-buffered-pointer-pipeline", chanPipeline, false, false},
+	{"select-parked-handoff", selectHandoff, false, false},
+	{"close-publishes", closePublishes, false, false},
+	{"racy-two-producers-one-buffered-channel", racyProducers, false, true},
+	{"racy-receiver-past-vs-buffered-sender", racyReceiverPast, false, true},
+	{"chan-as-semaphore-unbuffered-handoff", chanHandoff, false, false},
+	{"context-cancel-stops-worker", ctxCancel, false, false},
+	{"context-cancel-propagates-to-children", ctxChildren, false, false},
+	{"context-timeout", ctxTimeout, true, false},
+	{"context-cancel-vs-timeout", ctxCancelVsTimeout, true, false},
+	{"once-value", onceValue, false, false},
+	{"atomic-typed-counter", atomicTyped, false, false},
+}
+
+// A channel of capacity one as a lock (send = lock, receive = unlock): the kth receive is synchronised
+// before the completion of the (k+1)th send, so the counter below is race free and never torn.
+func chanMutex() string {
+	sem := make(chan struct{}, 1)
+	var wg sync.WaitGroup
+	x, inside := 0, 0
+	bad := ""
+	for i := 0; i < 3; i++ {
+		wg.Add(1)
+		go func() {
+			defer wg.Done()
+			sem <- struct{}{}
+			inside++
+			if inside != 1 {
+				bad = "ASSERT two goroutines inside the critical section"
+			}
+			x++
+			inside--
+			<-sem
+		}()
+	}
+	wg.Wait()
+	if bad != "" {
+		return bad
+	}
+	return fmt.Sprint(x)
+}
+
+// A buffered channel as a pipeline: what the producer wrote before send k is read by the consumer after
+// receive k (and the producer never touches an element again).
+func chanPipeline() string {
+	ch := make(chan *int, 2)
+	sum := 0
+	done := make(chan struct{})
+	go func() {
+		for p := range ch {
+			sum += *p
+		}
+		close(done)
+	}()
+	for i := 1; i <= 3; i++ {
+		v := new(int)
+		*v = i
+		ch <- v
+	}
+	close(ch)
+	<-done
+	return fmt.Sprint(sum)
+}
+
+// A goroutine parked in a select is handed a pointer by a plain send and answers through a plain receive
+// of its own select-send: both directions synchronise.
+func selectHandoff() string {
+	in, out, quit := make(chan *int), make(chan *int), make(chan struct{})
+	go func() {
+		for {
+			select {
+			case p := <-in:
+				*p *= 2
+				select {
+				case out <- p:
+				case <-quit:
+					return
+				}
+			case <-quit:
+				return
+			}
+		}
+	}()
+	v := 21
+	in <- &v
+	q := <-out
+	close(quit)
+	return fmt.Sprint(*q, v)
+}
+
+// close publishes: what was written before close(ch) is read after a receive from the closed channel.
+func closePublishes() string {
+	ready := make(chan struct{})
+	data := 0
+	var wg sync.WaitGroup
+	got := make([]int, 2)
+	for i := 0; i < 2; i++ {
+		wg.Add(1)
+		go func(i int) {
+			defer wg.Done()
+			<-ready
+			got[i] = data
+		}(i)
+	}
+	data = 7
+	close(ready)
+	wg.Wait()
+	return fmt.Sprint(got)
+}
+
+// RACY on purpose: two producers write the same variable and then send on one buffered channel. Sends
+// do not synchronise with each other, so the writes race.
+func racyProducers() string {
+	ch := make(chan int, 2)
+	shared := 0
+	for i := 1; i <= 2; i++ {
+		go func(i int) {
+			shared = i
+			ch <- i
+		}(i)
+	}
+	a, b := <-ch, <-ch
+	_ = shared
+	return fmt.Sprint(a + b)
+}
+
+// RACY on purpose: with a buffered channel the receiver's past is NOT ordered before what the sender
+// does after its send (only receive k happens-before send k+cap): the receiver writes x and then
+// receives, the sender sends and then reads x.
+func racyReceiverPast() string {
+	ch := make(chan int, 1)
+	x := 0
+	done := make(chan int)
+	go func() {
+		ch <- 1
+		done <- x
+	}()
+	x = 5
+	<-ch
+	return fmt.Sprint(<-done >= 0)
+}
+
+// Data handed over through an unbuffered channel and the reply through another one: plain memory written
+// before the send is read after the receive (and back) without any other synchronisation.
+func chanHandoff() string {
+	req, rep := make(chan *int), make(chan struct{})
+	go func() {
+		p := <-req
+		*p += 10
+		rep <- struct{}{}
+	}()
+	v := 1
+	req <- &v
+	<-rep
+	return fmt.Sprint(v)
 }
 
 // A worker selecting on ctx.Done() and a work channel: after cancel returns and the worker has been
